@@ -34,14 +34,23 @@ func VerifC17() {
 	}
 	ds := verifDataset(local, 1, placement)
 	clients := map[uint64]*verifDMClient{}
+	// a remote node may be gone: the asking node has neither a cached client nor
+	// an address for it, so every attempt to reach it fails at the dial
+	unreachable := map[uint64]bool{}
 	for _, node := range []uint64{101, 102} {
 		c := &verifDMClient{node: node, infoLen: map[string]uint64{}, infoBytes: map[string]uint64{}, infoFail: map[string]bool{}}
 		clients[node] = c
+		if verifrt.Bound("gone", 1) == 1 && verifrt.Choose("node-gone", 2) == 1 {
+			unreachable[node] = true
+			continue
+		}
 		ds.dataManagerClients[node] = c
 	}
 	var wantLen, wantBytes uint64
 	anyRemote := false
 	failing := map[string]bool{}
+	anyGone := false
+	allGone := map[string]bool{}
 	for i, p := range ds.partitions {
 		if p.isOnNode(local) {
 			p.index = index.NewHnsw(1, space.NewManhattan())
@@ -59,6 +68,18 @@ func VerifC17() {
 		wantLen += l
 		wantBytes += b
 		key := string(p.id.Bytes())
+		nGone := 0
+		for _, node := range placement[i] {
+			if unreachable[node] {
+				nGone++
+			}
+		}
+		if nGone > 0 {
+			anyGone = true
+		}
+		if nGone == len(placement[i]) {
+			allGone[key] = true
+		}
 		fail := verifrt.Choose("lookupfails", verifrt.Bound("failmodes", 2)) == 1
 		for _, node := range placement[i] {
 			clients[node].infoLen[key] = l
@@ -88,11 +109,18 @@ func VerifC17() {
 	if len(failing) > 0 {
 		verifrt.Tag("lookup-fails")
 	}
+	if anyGone {
+		verifrt.Tag("replica-node-gone")
+	}
 	if err != nil {
-		verifrt.Assert(len(failing) > 0 || askedFailing, "error-only-when-a-lookup-failed")
+		verifrt.Assert(len(failing) > 0 || askedFailing || anyGone, "error-only-when-a-lookup-failed")
 		return
 	}
-	verifrt.Assert(len(failing) == 0, "failed-lookup-means-error")
+	// a failing lookup whose partition has no reachable replica is never sent
+	for key := range failing {
+		verifrt.Assert(allGone[key], "failed-lookup-means-error")
+	}
+	verifrt.Assert(len(allGone) == 0, "partition-without-reachable-replica-means-error")
 	for _, p := range ds.partitions {
 		if !p.isOnNode(local) {
 			verifrt.Assert(asked[string(p.id.Bytes())] == 1, "every-remote-partition-asked-exactly-once")
